@@ -209,9 +209,10 @@ class WcRun(lifecycle.Run):
                     entry['ret'] = ['value', 'already-done']
                 else:
                     if outcome[0] == 'value':
-                        fut.set_result(outcome[1])
+                        fut.set_result(programs.special(outcome[1]))  # ('@NOCOPY': a result that cannot be copied)
                     elif outcome[0] == 'exc':
-                        fut.set_exception(ProgError(outcome[1]))
+                        # (a tag containing 'unprintable': an error without a printable form)
+                        fut.set_exception((programs.UnprintableError if 'unprintable' in str(outcome[1]) else ProgError)(outcome[1]))
                     else:
                         fut.cancel()
                     self.completions.append([act[1], outcome])
